@@ -2,6 +2,7 @@ import Gallia.Proofs.Lemmas.Loss
 import Gallia.Proofs.Lemmas.LossSys
 import Gallia.Proofs.Lemmas.HsfzSys
 import Gallia.Gen.C08Loss
+import Gallia.Model.LossPend
 import Gallia.Gen.C06Doip
 import Gallia.Gen.C07Hsfz
 import Gallia.Gen.C04Limits
@@ -777,5 +778,112 @@ example : ∀ o ∈ (LossSys.run LossSys.linesS exCls (exC 0) 10 exSys
   sys_run_calls_end LossSys.linesS exCls (exC 0) 10 exSys _ [] (by simp)
 
 end Sys
+
+/-! ### several pending readers at the moment of the loss (Model/LossPend.lean) -/
+section Pend
+open Gallia.LossPend
+
+/-- the outcome list names the readers in start order: every pending reader - any number k of them - gets an outcome -/
+theorem pend_all_readers_accounted (fl : Flavor) (n D : Nat) (loss : Option Nat) (j : Nat) (rs : List Rd) :
+    (outcomes fl n D loss j rs).map Prod.fst = rs := by
+  induction rs generalizing j with
+  | nil => simp [outcomes]
+  | cons r rs ih =>
+    unfold outcomes
+    split <;> simp [ih]
+
+/-- "never blocks forever", for any number of pending readers of any kind, with or without caller timeout, on every
+    flavour of connection, any number of queued messages: once the connection is lost (eof / reset / ack timeout / close,
+    at time `l`, after the delivery at `D`) EVERY pending read ends - no later than the loss, and no later than its own
+    caller timeout -/
+theorem pend_every_reader_ends (fl : Flavor) (n D l : Nat) (hD : D ≤ l) (j : Nat) (rs : List Rd) :
+    ∀ p ∈ outcomes fl n D (some l) j rs,
+      p.2.res ≠ .blocked ∧ p.2.t ≤ l ∧ (∀ d, p.1.tmo = some d → p.2.t ≤ d) := by
+  induction rs generalizing j with
+  | nil => simp [outcomes]
+  | cons r rs ih =>
+    intro p hp
+    unfold outcomes at hp
+    split at hp
+    · rename_i hc
+      rcases List.mem_cons.mp hp with rfl | hp
+      · refine ⟨by simp, hD, ?_⟩
+        intro d hd
+        have hd2 : r.tmo = some d := hd
+        simp only [Bool.and_eq_true, waitsAt, hd2, decide_eq_true_eq] at hc
+        show D ≤ d
+        omega
+      · exact ih _ p hp
+    · rcases List.mem_cons.mp hp with rfl | hp
+      · cases ht : r.tmo with
+        | none => simp [ending, ht]
+        | some d =>
+          simp only [ending, ht]
+          split <;> simp <;> omega
+      · exact ih _ p hp
+
+/-- with a caller timeout a pending read ends by that timeout whatever the peer does (also when it stays silent for ever);
+    only a read without caller timeout on a connection that is never lost may wait for ever -/
+theorem pend_timeout_bounds (fl : Flavor) (n D : Nat) (loss : Option Nat) (j : Nat) (rs : List Rd) :
+    ∀ p ∈ outcomes fl n D loss j rs, ∀ d, p.1.tmo = some d → p.2.res ≠ .blocked ∧ p.2.t ≤ d := by
+  induction rs generalizing j with
+  | nil => simp [outcomes]
+  | cons r rs ih =>
+    intro p hp d hd
+    unfold outcomes at hp
+    split at hp
+    · rename_i hc
+      rcases List.mem_cons.mp hp with rfl | hp
+      · have hd2 : r.tmo = some d := hd
+        simp only [Bool.and_eq_true, waitsAt, hd2, decide_eq_true_eq] at hc
+        refine ⟨by simp, ?_⟩
+        show D ≤ d
+        omega
+      · exact ih _ p hp d hd
+    · rcases List.mem_cons.mp hp with rfl | hp
+      · simp only at hd
+        cases loss with
+        | none => simp [ending, hd]
+        | some l =>
+          simp only [ending, hd]
+          split <;> simp <;> omega
+      · exact ih _ p hp d hd
+
+/-- no fabricated data: a reader only ever returns one of the `n` messages the peer delivered, and only a reader that
+    reads the queue the message was put in and was still waiting when it arrived -/
+theorem pend_no_fabrication (fl : Flavor) (n D : Nat) (loss : Option Nat) (j : Nat) (rs : List Rd) :
+    ∀ p ∈ outcomes fl n D loss j rs, ∀ i, p.2.res = .data i →
+      j ≤ i ∧ i < n ∧ p.2.t = D ∧ eligible fl p.1.op = true ∧ waitsAt p.1 D = true := by
+  induction rs generalizing j with
+  | nil => simp [outcomes]
+  | cons r rs ih =>
+    intro p hp i hi
+    unfold outcomes at hp
+    split at hp
+    · rename_i hc
+      simp only [Bool.and_eq_true, decide_eq_true_eq] at hc
+      rcases List.mem_cons.mp hp with rfl | hp
+      · simp only [Res.data.injEq] at hi
+        subst hi
+        exact ⟨Nat.le_refl _, hc.2, rfl, hc.1.1, hc.1.2⟩
+      · have := ih _ p hp i hi
+        exact ⟨by omega, this.2⟩
+    · rcases List.mem_cons.mp hp with rfl | hp
+      · exfalso
+        revert hi
+        simp only [ending]
+        split <;> (try split) <;> simp
+      · exact ih _ p hp i hi
+
+-- not vacuous: three readers on the separate diagnostic-message queue (two without caller timeout), one message, the
+-- loss at 1000 ms: the first gets the message, the second times out, the third AND the `read_frame` reader end at the loss
+example : (outcomes .doipSep 1 150 (some 1000) 0
+      [⟨.diag, none⟩, ⟨.diag, some 700⟩, ⟨.diag, none⟩, ⟨.frame, none⟩]).map Prod.snd
+    = [⟨.data 0, 150⟩, ⟨.timeout, 700⟩, ⟨.conn, 1000⟩, ⟨.conn, 1000⟩] := by decide
+-- the peer stays silent: exactly the readers without caller timeout wait for ever
+example : (outcomes .hsfz 0 0 none 0 [⟨.diag, none⟩, ⟨.frame, some 300⟩]).map Prod.snd
+    = [⟨.blocked, 0⟩, ⟨.timeout, 300⟩] := by decide
+
+end Pend
 
 end Gallia.C08
